@@ -241,7 +241,7 @@ class _LocalDatePatternParser(_IPatternParser[LocalDate]):
                 == (_PatternFields.YEAR | _PatternFields.MONTH_OF_YEAR_NUMERIC | _PatternFields.DAY_OF_MONTH)
                 and self._calendar == CalendarSystem.iso
             ):
-                return self.__calculate_simple_iso_value(text)
+                return self.__calculate_simple_iso_value(text, eventual_result_type)
 
             if used_fields.has_any(_PatternFields.EMBEDDED_DATE):
                 return ParseResult.for_value(
@@ -283,11 +283,13 @@ class _LocalDatePatternParser(_IPatternParser[LocalDate]):
                 return ParseResult[LocalDate]._inconsistent_day_of_week_text_value(text)
             return ParseResult[LocalDate].for_value(value)
 
-        def __calculate_simple_iso_value(self, text: str) -> ParseResult[LocalDate]:
+        def __calculate_simple_iso_value(self, text: str, eventual_result_type: type) -> ParseResult[LocalDate]:
             """Optimized computation for a pattern with an ISO calendar template value, and year/month/day fields."""
             day: int = self._day_of_month
             month: int = self._month_of_year_numeric
-            # Note: year is always valid, as it's already validated to be in the range -9999 to 9999.
+            # The year field accepts -9999 to 9999, which is one year more than the calendar supports.
+            if self._year > self._calendar.max_year or self._year < self._calendar.min_year:
+                return ParseResult._field_value_out_of_range_post_parse(text, self._year, "u", eventual_result_type)
 
             if month > 12:
                 return ParseResult._month_out_of_range(text, month, self._year)
